@@ -7,6 +7,7 @@ import (
 	"fmt"
 	"os"
 	"strings"
+	"verifharness/historychk"
 
 	"github.com/csgura/fp"
 	"github.com/csgura/fp/either"
@@ -782,6 +783,7 @@ func main() {
 		sink.Case(op.String(), func() string { return runCase(op) })
 	}
 	nd := direct(r, sink, *n/10+10)
+	nd += historychk.Run(sink, prop)
 	sink.Close()
 	parts := []string{}
 	for k, v := range hist {
